@@ -15,6 +15,10 @@ class NativeBytecode:
         src = self.s.path("bytecode", "src")
         shutil.copy(os.path.join(VERIF, "native", "bytecode_harness.rs"), os.path.join(src, "verif_native.rs"))
         shutil.copy(os.path.join(VERIF, "native", "bytecode_harness_ext.rs"), os.path.join(src, "verif_native_ext.rs"))
+        with open(os.path.join(src, "lib.rs")) as f:
+            if "mod verif_native;" in f.read():
+                self.installed = True
+                return
         with open(os.path.join(src, "lib.rs"), "a") as f:
             f.write("\n#[cfg(test)]\nmod verif_native;\n")
         # read-only accessor for the harness (scratch copy only): the instruction list of a loaded function
@@ -80,8 +84,11 @@ class NativeCompiler:
         # inside `crate::ast` because some fields are `pub(in crate::ast)`
         src = self.s.path("compiler", "src")
         shutil.copy(os.path.join(VERIF, "native", "compiler_harness.rs"), os.path.join(src, "ast", "verif_native.rs"))
-        with open(os.path.join(src, "ast.rs"), "a") as f:
-            f.write("\n#[cfg(test)]\nmod verif_native;\n")
+        with open(os.path.join(src, "ast.rs")) as f:
+            already = "mod verif_native;" in f.read()
+        if not already:         # another NativeCompiler of the same scratch copy may have installed it
+            with open(os.path.join(src, "ast.rs"), "a") as f:
+                f.write("\n#[cfg(test)]\nmod verif_native;\n")
         self.installed = True
 
     def run(self, env_extra=None, release=False):
